@@ -257,6 +257,18 @@ def dec0(key, msg_bytes, ext_aad, ciphertext):
     return AESGCM(key).decrypt(unprot[5], bytes(ciphertext), structure)
 
 
+def dec_wrapped(kek, msg_bytes, ext_aad, ciphertext):
+    ''' COSE_Encrypt with detached ciphertext and one AES-KW recipient (RFC 9052 5.1, RFC 3394): unwrap the content key with
+    the key-encryption key, then AES-GCM over Enc_structure ["Encrypt", protected, external_aad]. '''
+    from cryptography.hazmat.primitives.ciphers.aead import AESGCM
+    from cryptography.hazmat.primitives.keywrap import aes_key_unwrap
+    (prot, unprot, _pay, recipients) = cbor2.loads(msg_bytes)[:4]
+    (_rprot, _runprot, wrapped) = recipients[0][:3]
+    cek = aes_key_unwrap(kek, wrapped)
+    structure = cbor2.dumps(['Encrypt', prot, bytes(ext_aad)])
+    return AESGCM(cek).decrypt(unprot[5], bytes(ciphertext), structure)
+
+
 def make_bcb(pri, target_blk, key, kid, num, ivec, alg=3, scope=None, source='dtn://src/', crc_type=0, primary_raw=None):
     ''' Returns (bcb block dict, encrypted target block dict). '''
     if scope is None:
